@@ -273,3 +273,26 @@ PROPS["C09"] = dict(
                "Lagrange model in c09_fmg.cpp. Non-midpoint nodes of the linear fallback rule are finding F6b (excluded, counted).",
     assumptions=["the friend accessor (GMGPOLAR_VERIF) only reads levels_/interpolation_ and overwrites work vectors"],
 )
+
+PROPS["C10"] = dict(
+    harness="c10_cycles", flavour="rel",
+    quick=dict(workers=8, cases=1200, min_nontrivial=300),
+    thorough=dict(workers=16, cases=80000, min_nontrivial=3000, budget_s=3000),
+    rule="A GMGPolar object after setup() (shipped smooth triples, grids 9x16..65x128, L in 2..5 via maxLevels, give/take, "
+         "both BC modes, threads 1,2,4); through the guarded friend accessor one of the six private cycle functions is run "
+         "exactly as solve() calls it, from a generated iterate (normal/smooth/spikes/constant), nu1,nu2 in 0..3, extrapolated "
+         "smoothing or full-grid smoothing, with every solution/residual/error_correction vector of levels>=1 and the "
+         "level-0 residual pre-filled with generated garbage, twice with different garbage. mode 0: differential against "
+         "the reference cycle (fresh vectors per depth; contains nu=0,L=2: u+P A_c^-1 R(f-Au) resp. the 4/3,-1/3 "
+         "extrapolated correction); mode 1: f_h:=A_h u, f_c:=A_c Inj u makes u the exact solution, one cycle must return "
+         "it within 1e3*eps*kappa_est*|u|. Non-trivial: L>=3 or nu1+nu2>=1. Distinct: (cycle fn, smoothing mode, L, "
+         "nu1, nu2, strategy, BC, dims, mode).",
+    technique="property-based testing (rapidcheck) through a guarded friend hook; differential against a reference correction scheme, fixed-point and scratch-independence (metamorphic) oracles",
+    level_text="Generated (cycle, levels, smoothing counts, iterate, scratch pollution) cases run the real private cycle "
+               "functions and compare with an independently written recursive correction scheme using fresh vectors, check "
+               "that the exact solution is a fixed point and that the result is bit-identical for different scratch "
+               "contents. Exploration.",
+    level_note="Trusted: harness/common/ref_cycle.h; the guarded friend accessor GMGPolarVerifAccess; condition estimate from "
+               "three direct solves on the coarsest level.",
+    assumptions=["setup() with the combined extrapolation mode provides both smoothers and the level-1 right-hand side for all six cycle functions"],
+)
